@@ -494,7 +494,7 @@ UNITS += wbs_remove_units()
 from contracts.task import LInv_side, LINK_LABS, link_setter_call, forest_struct, up_struct
 
 
-def link_operator_unit(side):
+def link_operator_unit(side, single=False):
     """Task.__lshift__ / __rshift__:  self.predecessors += other  ==  self.predecessors = list(self.predecessors) + _to_list(other)  (facade __add__), through the link setter"""
     fname = '__lshift__' if side == 'pre' else '__rshift__'; pname = 'predecessors' if side == 'pre' else 'successors'
     M = (lambda h, t: h.P(t)) if side == 'pre' else (lambda h, t: h.S(t)); O = (lambda h, t: h.S(t)) if side == 'pre' else (lambda h, t: h.P(t))
@@ -503,6 +503,7 @@ def link_operator_unit(side):
     def build():
         hc = lambda c: H(c.eng, c.st); h0 = lambda c: H(c.eng, c.pre); me = lambda c: c['self']
         state = {}
+        oth = (lambda c: If(c['other'] == null, empty, one_of(c['other']))) if single else (lambda c: c['other'])          # the right operand as a list (_to_list: a task is a one-element list, None the empty one)
 
         class OpPlugin(ChildrenPlugin):
             def ev_Attribute(self_, eng, e, st):
@@ -516,6 +517,7 @@ def link_operator_unit(side):
             def binop(self_, eng, st, k, l_, r, line):
                 # facade + other  ==  facade._list.__add__(_to_list(other)); other is a list of non-None tasks here, so _to_list is the identity
                 if k == 'Add' and l_.s in (LR, LT) and r.s == LT: return V(cat(self_.listval(eng, st, l_, line), r.e), LT)
+                if k == 'Add' and l_.s in (LR, LT) and r.s == T: return V(cat(self_.listval(eng, st, l_, line), If(r.e == null, empty, one_of(r.e))), LT)          # _to_list(task) = [task], _to_list(None) = []
                 return NotImplemented
 
             def assign(self_, eng, s, target, v):
@@ -526,34 +528,34 @@ def link_operator_unit(side):
                 return NotImplemented
 
         def rc(c):
-            hh = h0(c); E0 = c.pre.ghost['E']; m = me(c); Vv = cat(M(hh, m), c['other'])
+            hh = h0(c); E0 = c.pre.ghost['E']; m = me(c); Vv = cat(M(hh, m), oth(c))
             return Exists([x], And(mem(Vv, x), Or(x == m, Desc(hh.par, x, m), Desc(hh.par, m, x), TCp(E0, m, x))))
         reqs = [(l_, (lambda l_: lambda c: LInv_side(side, hc(c), c.st.ghost['E'])[l_])(l_)) for l_ in LINK_LABS] + \
-               [('task-and-the-named-tasks-are-public', lambda c: And(me(c) != null, hc(c).tid[me(c)] != EMPTY, ForAll([x], Implies(mem(c['other'], x), And(x != null, hc(c).tid[x] != EMPTY))),
+               [('task-and-the-named-tasks-are-public', lambda c: And(me(c) != null, hc(c).tid[me(c)] != EMPTY, ForAll([x], Implies(mem(oth(c), x), And(x != null, hc(c).tid[x] != EMPTY))),
                                                                        ForAll([x], Implies(mem(M(hc(c), me(c)), x), hc(c).tid[x] != EMPTY), patterns=[mem(M(hc(c), me(c)), x)]))),
                 ('C01/F4-no-task-is-its-own-ancestor', lambda c: And(Acyc(hc(c).par), hc(c).par[null] == null)),
                 ('C01/F1-F3-children-lists-mirror-the-parents', lambda c: forest_struct(hc(c), me(c))), ('DR-reserved-id-only-on-parentless-tasks', lambda c: up_struct(hc(c))),
                 ('hidden-root-has-reserved-id', lambda c: ForAll([w_], Implies(w_ != W.null, And(hc(c).root[w_] != null, hc(c).tid[hc(c).root[w_]] == EMPTY, hc(c).par[hc(c).root[w_]] == null)), patterns=[hc(c).root[w_]]))]
         unchanged = lambda c: And(hc(c).elems == h0(c).elems, hc(c).pre == h0(c).pre, hc(c).suc == h0(c).suc, hc(c).par == h0(c).par)
-        fc = {'sig': {'self': T, 'other': LT}, 'ghost': {'E': S('REL', REL)}, 'requires': reqs,
+        fc = {'sig': {'self': T, 'other': T if single else LT}, 'ghost': {'E': S('REL', REL)}, 'requires': reqs,
               'raises': {'RuntimeError': [('C15/rejected-call-changes-nothing', unchanged), ('C01/rejected-only-for-a-stated-reason', rc)]},
               'ensures': [(l_, (lambda l_: lambda c: LInv_side(side, hc(c), c.st.ghost['E'])[l_])(l_)) for l_ in LINK_LABS] +
-                         [('C16/links-are-the-old-ones-plus-the-named-tasks', lambda c: ForAll([x], mem(M(hc(c), me(c)), x) == Or(mem(M(h0(c), me(c)), x), mem(c['other'], x)))),
+                         [('C16/links-are-the-old-ones-plus-the-named-tasks', lambda c: ForAll([x], mem(M(hc(c), me(c)), x) == Or(mem(M(h0(c), me(c)), x), mem(oth(c), x)))),
                           ('C16/old-links-keep-their-order-and-come-first', lambda c: And(
                               ForAll([a_, b_], Implies(And(mem(M(h0(c), me(c)), a_), mem(M(h0(c), me(c)), b_)), (idx(M(hc(c), me(c)), a_) < idx(M(hc(c), me(c)), b_)) == (idx(M(h0(c), me(c)), a_) < idx(M(h0(c), me(c)), b_)))),
-                              ForAll([a_, b_], Implies(And(mem(M(h0(c), me(c)), a_), mem(c['other'], b_), Not(mem(M(h0(c), me(c)), b_))), idx(M(hc(c), me(c)), a_) < idx(M(hc(c), me(c)), b_))))),
-                          ('C16/mirror-side-updated', lambda c: ForAll([a_, b_], Implies(a_ != null, mem(O(hc(c), a_), b_) == If(b_ == me(c), Or(mem(O(h0(c), a_), b_), mem(c['other'], a_)), mem(O(h0(c), a_), b_))))),
+                              ForAll([a_, b_], Implies(And(mem(M(h0(c), me(c)), a_), mem(oth(c), b_), Not(mem(M(h0(c), me(c)), b_))), idx(M(hc(c), me(c)), a_) < idx(M(hc(c), me(c)), b_))))),
+                          ('C16/mirror-side-updated', lambda c: ForAll([a_, b_], Implies(a_ != null, mem(O(hc(c), a_), b_) == If(b_ == me(c), Or(mem(O(h0(c), a_), b_), mem(oth(c), a_)), mem(O(h0(c), a_), b_))))),
                           ('C16/links-of-all-other-tasks-unchanged', lambda c: ForAll([t_], Implies(And(t_ != null, t_ != me(c)), M(hc(c), t_) == M(h0(c), t_)))),
                           ('C16/returns-the-right-operand', lambda c: c.result.e == c['other']),
                           ('C01/accepted-only-without-a-reason-to-reject', lambda c: Not(rc(c)))]}
-        return Engine(F, f'Task.{fname}', {}, TASK_CLASSES, fc, plugins=[OpPlugin()]), LIST_AX + LIST_CAT_AX + GRAPH_AX + DEP_AX
-    return Unit(f'Task.{fname}', F, build, ['C01', 'C15', 'C16'], timeout_ms=15000)
+        return Engine(F, f'Task.{fname}', {}, TASK_CLASSES, fc, plugins=[OpPlugin()]), LIST_AX + LIST_CAT_AX + GRAPH_AX + DEP_AX + ONE_AX
+    return Unit(f'Task.{fname}' + ('[single task]' if single else ''), F, build, ['C01', 'C15', 'C16'], timeout_ms=15000)
 
 
-UNITS += [link_operator_unit('pre'), link_operator_unit('suc')]
+UNITS += [link_operator_unit('pre'), link_operator_unit('suc'), link_operator_unit('pre', single=True), link_operator_unit('suc', single=True)]
 
 
-def bulk_link_operator_unit(side):
+def bulk_link_operator_unit(side, single=False):
     """_ImmutableTaskList.__lshift__ / __rshift__:  for t in self: t.predecessors += other  - every member of the task list gets the named tasks as predecessors (successors).
     Domain: the list is a query result, i.e. a list of its own that no task uses as a dependency list (`self` is a list value here).  Nothing is claimed for a refused call:
     the loop stops half-way (known finding A-38, C15)."""
@@ -563,6 +565,7 @@ def bulk_link_operator_unit(side):
 
     def build():
         hc = lambda c: H(c.eng, c.st); h0 = lambda c: H(c.eng, c.pre)
+        oth = (lambda c: c.st.ghost['OTH']) if single else (lambda c: c['other'])          # the right operand as a list (_to_list); for a single task a ghost name for [task] / [] (patterns must not contain if-terms)
 
         class OpPlugin(ChildrenPlugin):
             def ev_Attribute(self_, eng, e, st):
@@ -575,6 +578,7 @@ def bulk_link_operator_unit(side):
 
             def binop(self_, eng, st, k, l_, r, line):
                 if k == 'Add' and l_.s in (LR, LT) and r.s == LT: return V(cat(self_.listval(eng, st, l_, line), r.e), LT)
+                if k == 'Add' and l_.s in (LR, LT) and r.s == T: return V(cat(self_.listval(eng, st, l_, line), If(r.e == null, empty, one_of(r.e))), LT)
                 return NotImplemented
 
             def assign(self_, eng, s, target, v):
@@ -590,36 +594,38 @@ def bulk_link_operator_unit(side):
         done = lambda c, t, i: And(mem(c['self'], t), idx(c['self'], t) < i)          # the member has been passed (its first occurrence lies before position i)
 
         def effect(c, i):
-            return ForAll([t_, x], Implies(t_ != null, mem(M(hc(c), t_), x) == Or(mem(M(h0(c), t_), x), And(done(c, t_, i), mem(c['other'], x)))), patterns=[mem(M(hc(c), t_), x)])
+            return ForAll([t_, x], Implies(t_ != null, mem(M(hc(c), t_), x) == Or(mem(M(h0(c), t_), x), And(done(c, t_, i), mem(oth(c), x)))), patterns=[mem(M(hc(c), t_), x)])
         hier_same = lambda c: And(hc(c).par == h0(c).par, hc(c).chl == h0(c).chl, hc(c).tid == h0(c).tid, hc(c).root == h0(c).root, hc(c).own == h0(c).own,
                                   ForAll([t_], Implies(t_ != null, hc(c).ch(t_) == h0(c).ch(t_)), patterns=[hc(c).chl[t_]]))
         public_links = lambda c: ForAll([t_, x], Implies(And(t_ != null, mem(M(hc(c), t_), x)), hc(c).tid[x] != EMPTY), patterns=[mem(M(hc(c), t_), x)])
         reqs = [(l_, (lambda l_: lambda c: LInv_side(side, hc(c), c.st.ghost['E'])[l_])(l_)) for l_ in LINK_LABS] + [(l_, (lambda l_: lambda c: I(c)[l_])(l_)) for l_ in STRUCT] + \
                [('members-and-named-tasks-are-public-tasks', lambda c: And(ForAll([x], Implies(mem(c['self'], x), And(x != null, hc(c).tid[x] != EMPTY)), patterns=[mem(c['self'], x)]),
-                                                                        ForAll([x], Implies(mem(c['other'], x), And(x != null, hc(c).tid[x] != EMPTY)), patterns=[mem(c['other'], x)]))),
+                                                                        ForAll([x], Implies(mem(oth(c), x), And(x != null, hc(c).tid[x] != EMPTY)), patterns=[mem(oth(c), x)]))),
                 ('linked-tasks-are-public', public_links)]
         inv = [('links/' + l_, (lambda l_: lambda c: LInv_side(side, hc(c), c.st.ghost['E'])[l_])(l_)) for l_ in LINK_LABS] + \
               [('hierarchy-ids-owners-unchanged', hier_same), ('linked-tasks-are-public', public_links), ('index', lambda c: And(c['_i0'] >= 0, c['_i0'] <= ln(c['self']))),
                ('members-passed-so-far-have-the-named-tasks', lambda c: effect(c, c['_i0']))]
-        fc = {'sig': {'self': LT, 'other': LT}, 'locals': {'t': T}, 'ghost': {'E': S('REL', REL)}, 'requires': reqs,
+        fc = {'sig': {'self': LT, 'other': T if single else LT}, 'locals': {'t': T}, 'ghost': dict({'E': S('REL', REL)}, **({'OTH': LT} if single else {})),
+              'requires': reqs + ([('ghost-name-of-the-operand-as-a-list', lambda c: c.st.ghost['OTH'] == If(c['other'] == null, empty, one_of(c['other'])))] if single else []),
               'loops': {0: {'fingerprint': 'for t in self', 'havoc_heap': ['PyList.elems', 'Task._Task__predecessors', 'Task._Task__successors'], 'havoc_ghost': ['E'], 'invariant': inv}},
               'raises': {'RuntimeError': []},
               'ensures': [(l_, (lambda l_: lambda c: LInv_side(side, hc(c), c.st.ghost['E'])[l_])(l_)) for l_ in LINK_LABS] +
-                         [('C16,C18/every-member-has-its-old-links-plus-the-named-tasks-and-no-other-task-changes', lambda c: ForAll([t_, x], Implies(t_ != null, mem(M(hc(c), t_), x) == Or(mem(M(h0(c), t_), x), And(mem(c['self'], t_), mem(c['other'], x)))))),
+                         [('C16,C18/every-member-has-its-old-links-plus-the-named-tasks-and-no-other-task-changes', lambda c: ForAll([t_, x], Implies(t_ != null, mem(M(hc(c), t_), x) == Or(mem(M(h0(c), t_), x), And(mem(c['self'], t_), mem(oth(c), x)))))),
                           ('C16/hierarchy-ids-owners-unchanged', hier_same), ('C16/returns-the-right-operand', lambda c: c.result.e == c['other'])]}
-        return Engine(F, f'_ImmutableTaskList.{fname}', {}, TASK_CLASSES, fc, plugins=[OpPlugin()]), LIST_AX + LIST_CAT_AX + GRAPH_AX + DEP_AX
-    return Unit(f'_ImmutableTaskList.{fname}', F, build, ['C01', 'C16', 'C18'], timeout_ms=15000)
+        return Engine(F, f'_ImmutableTaskList.{fname}', {}, TASK_CLASSES, fc, plugins=[OpPlugin()]), LIST_AX + LIST_CAT_AX + GRAPH_AX + DEP_AX + ONE_AX
+    return Unit(f'_ImmutableTaskList.{fname}' + ('[single task]' if single else ''), F, build, ['C01', 'C16', 'C18'], timeout_ms=15000)
 
 
-UNITS += [bulk_link_operator_unit('pre'), bulk_link_operator_unit('suc')]
+UNITS += [bulk_link_operator_unit('pre'), bulk_link_operator_unit('suc'), bulk_link_operator_unit('pre', single=True), bulk_link_operator_unit('suc', single=True)]
 
 
-def floordiv_unit():
+def floordiv_unit(single=False):
     """Task.__floordiv__:  self.children += other  ==  self.children = list(self.children) + _to_list(other), through the children setter.
-    Domain of the proof: `other` names no current child and no task twice (then the assigned list has no repetition)"""
+    `other` may name current children and may name a task twice: the assigned list then has repetitions and every task ends up once, at its last place"""
     def build():
         hc = lambda c: H(c.eng, c.st); h0 = lambda c: H(c.eng, c.pre); me = lambda c: c['self']
-        Vv = lambda c: cat(h0(c).ch(me(c)), c['other'])
+        oth = (lambda c: c.st.ghost['OTH']) if single else (lambda c: c['other'])
+        Vv = lambda c: cat(h0(c).ch(me(c)), oth(c))
 
         class OpPlugin(ChildrenPlugin):
             def ev_Attribute(self_, eng, e, st):
@@ -632,6 +638,9 @@ def floordiv_unit():
 
             def binop(self_, eng, st, k, l_, r, line):
                 if k == 'Add' and l_.s in (LR, LT) and r.s == LT: return V(cat(self_.listval(eng, st, l_, line), r.e), LT)
+                if k == 'Add' and l_.s in (LR, LT) and r.s == T:          # _to_list(task) = [task], _to_list(None) = []: the ghost name of that list (checked here to be it)
+                    st.oblige('lemma/ghost-name-is-the-operand-as-a-list', st.ghost['OTH'] == If(r.e == null, empty, one_of(r.e)), f'@{line}')
+                    return V(cat(self_.listval(eng, st, l_, line), st.ghost['OTH']), LT)
                 return NotImplemented
 
             def assign(self_, eng, s, target, v):
@@ -640,22 +649,22 @@ def floordiv_unit():
                     return [(s3, r if isinstance(r, Raise) else FALL) for s3, r in children_setter_call(eng, s2, o.e, v.e, target.lineno)]
                 return NotImplemented
         unchanged = lambda c: And(hc(c).par == h0(c).par, hc(c).own == h0(c).own, hc(c).elems == h0(c).elems)
-        fc = {'sig': {'self': T, 'other': LT}, 'ghost': {'attach_rejected': BOOL},
-              'requires': [(l_, (lambda l_: lambda c: Inv(hc(c))[l_])(l_)) for l_ in LABS] +
+        fc = {'sig': {'self': T, 'other': T if single else LT}, 'ghost': dict({'attach_rejected': BOOL}, **({'OTH': LT} if single else {})),
+              'requires': ([('ghost-name-of-the-operand-as-a-list', lambda c: c.st.ghost['OTH'] == If(c['other'] == null, empty, one_of(c['other'])))] if single else []) + [(l_, (lambda l_: lambda c: Inv(hc(c))[l_])(l_)) for l_ in LABS] +
                           [('task-non-null', lambda c: me(c) != null), ('ghost-flag-starts-false', lambda c: Not(c.st.ghost['attach_rejected'])),
-                           ('named-tasks-are-public-new-and-not-repeated', lambda c: And(nodup(c['other']), ForAll([x], Implies(mem(c['other'], x), And(x != null, hc(c).tid[x] != EMPTY, Not(mem(hc(c).ch(me(c)), x)))))))],
+                           ('named-tasks-are-public-tasks', lambda c: ForAll([x], Implies(mem(oth(c), x), And(x != null, hc(c).tid[x] != EMPTY))))],
               'raises': {'RuntimeError': [('C15/a-call-rejected-by-a-check-changes-nothing', lambda c: Or(c.st.ghost['attach_rejected'], unchanged(c))),
                                           ('C01,C05,C11/rejected-by-a-check-only-for-a-stated-reason', lambda c: Or(c.st.ghost['attach_rejected'], reasons(h0(c), me(c), Vv(c)))), ('C15/a-refusal-out-of-the-attach-loop-needs-ids-that-were-not-unique', lambda c: Implies(c.st.ghost['attach_rejected'], Not(Inv(H(c.eng, c.pre))[U1])))]},
               'ensures': [(l_, (lambda l_: lambda c: Inv(hc(c))[l_])(l_)) for l_ in LABS] + [('C05/ids-stay-unique-within-every-tree', lambda c: Implies(Inv(H(c.eng, c.pre))[U1], Inv(H(c.eng, c.st))[U1]))] +
-                         [('C16/children-are-the-old-ones-followed-by-the-named-tasks', lambda c: hc(c).ch(me(c)) == Vv(c)),
-                          ('C16/every-named-task-reports-this-parent', lambda c: ForAll([x], Implies(mem(c['other'], x), hc(c).par[x] == me(c)))),
-                          ('C16/parents-of-all-other-tasks-unchanged', lambda c: ForAll([x], Implies(Not(mem(c['other'], x)), hc(c).par[x] == h0(c).par[x]))),
+                         [('C16/children-are-the-old-ones-followed-by-the-named-tasks-(a-task-named-again-moves-to-its-last-place)', lambda c: And(hc(c).ch(me(c)) == dl(Vv(c), ln(Vv(c))), Implies(nodup(Vv(c)), hc(c).ch(me(c)) == Vv(c)))),
+                          ('C16/every-named-task-reports-this-parent', lambda c: ForAll([x], Implies(mem(oth(c), x), hc(c).par[x] == me(c)))),
+                          ('C16/parents-of-all-other-tasks-unchanged', lambda c: ForAll([x], Implies(Not(mem(oth(c), x)), hc(c).par[x] == h0(c).par[x]))),
                           ('C16/returns-the-right-operand', lambda c: c.result.e == c['other'])]}
-        return Engine(F, 'Task.__floordiv__', {}, TASK_CLASSES, fc, plugins=[OpPlugin()]), LIST_AX + LIST_CAT_AX + GRAPH_AX
-    return Unit('Task.__floordiv__', F, build, ['C01', 'C11', 'C15', 'C16'], timeout_ms=15000)
+        return Engine(F, 'Task.__floordiv__', {}, TASK_CLASSES, fc, plugins=[OpPlugin()]), LIST_AX + LIST_CAT_AX + LIST_DL_AX + GRAPH_AX + ONE_AX
+    return Unit('Task.__floordiv__' + ('[single task]' if single else ''), F, build, ['C01', 'C11', 'C15', 'C16'], timeout_ms=15000)
 
 
-UNITS += [floordiv_unit()]
+UNITS += [floordiv_unit(), floordiv_unit(single=True)]
 
 
 # ================================================================================================ Task.__init__
